@@ -113,6 +113,8 @@ def gen_sched_case(rng, tier, kind=None, mode=None, static=False, many_to_one=No
     if monitor:
         case['monitor'] = {'included': rng.random() < 0.5,
                            'dist': [rng.choice([0.125, 0.25, 0.5, 1.0, 0.0625, 0.03125]) for _ in range(10)]}
+    if rng.random() < 0.1:
+        case['late_cfg'] = rng.choice([8, 12345, 1 << 22])
     if mode != 'FLOAT' and rng.random() < 0.12:
         # a fast link (tens of Mbit/s to Tbit/s): the same scenario with the rate multiplied and every instant divided
         # by a power of two, which is exact in binary floating point; transmission times go down to nanoseconds
@@ -167,6 +169,16 @@ def build(w, case):
              'WRR': lambda: WRR(env, rate, d)}[kind]()
             d.clear()
             d.update(real)
+    late = case.get('late_cfg')
+    real_rate = rate
+    if late:
+        # configuration through the public attributes after construction (once the scheduler's process has started):
+        # the line rate of every kind, and the weight table of WFQ edited in place
+        rate = late
+        if kind == 'WFQ':
+            real_w = dict(d)
+            for c in d:
+                d[c] = 1
     if kind == 'SP':
         s = SP(env, rate, d, flow2class=f2c)
     elif kind == 'WFQ':
@@ -181,6 +193,15 @@ def build(w, case):
         s = WRR(env, rate, d)
     else:
         raise ValueError(kind)
+    if late:
+        def configure():
+            s.rate = real_rate
+            if kind == 'WFQ':
+                for c, v in real_w.items():
+                    s.weights[c] = v
+            return
+            yield
+        env.process(configure())
     return s, f2c
 
 
